@@ -207,6 +207,14 @@ var plants = func() []plant {
 		{name: "255-positional", expr: manyArgs(255, false), where: anyExpr, violates: never},
 		{name: "256-named", expr: manyArgs(256, true), where: anyExpr, violates: always},
 		{name: "255-named", expr: manyArgs(255, true), where: anyExpr, violates: never},
+		// *args and **kwargs operands do not count towards either limit
+		{name: "255-positional-star-kw", expr: strings.TrimSuffix(manyArgs(255, false), ")") + ", *[], **{})", where: anyExpr, violates: never},
+		{name: "254-positional-star", expr: strings.TrimSuffix(manyArgs(254, false), ")") + ", *[1])", where: anyExpr, violates: never},
+		{name: "255-named-kw", expr: strings.TrimSuffix(manyArgs(255, true), ")") + ", **{})", where: anyExpr, violates: never},
+		{name: "255-named-star-kw", expr: strings.TrimSuffix(manyArgs(255, true), ")") + ", *[], **{})", where: anyExpr, violates: never},
+		{name: "255-and-255", expr: strings.TrimSuffix(manyArgs(255, false), ")") + ", " + strings.TrimPrefix(manyArgs(255, true), "t("), where: anyExpr, violates: never},
+		{name: "256-positional-star", expr: strings.TrimSuffix(manyArgs(256, false), ")") + ", *[])", where: anyExpr, violates: always},
+		{name: "256-named-kw", expr: strings.TrimSuffix(manyArgs(256, true), ")") + ", **{})", where: anyExpr, violates: always},
 		{name: "lambda-dup-param", expr: "(lambda u, u: 0)", where: anyExpr, violates: always},
 		{name: "lambda-required-after-optional", expr: "(lambda u = 1, v: 0)", where: anyExpr, violates: always},
 		{name: "lambda-param-after-kwargs", expr: "(lambda **u, v: 0)", where: anyExpr, violates: always},
@@ -458,6 +466,38 @@ func checkPlant(c Case) error {
 			}
 		} else if static {
 			return fmt.Errorf("%s: rule-abiding program rejected: %v\n%s", key, err, numbered(src))
+		}
+	}
+	// The legacy way of choosing the dialect: package-level flags read when a file is parsed. A file keeps the
+	// dialect it was parsed with, whatever the flags are set to (and whatever is parsed) afterwards.
+	saved := [4]bool{resolve.AllowSet, resolve.AllowGlobalReassign, resolve.AllowRecursion, resolve.LoadBindsGlobally}
+	defer func() {
+		resolve.AllowSet, resolve.AllowGlobalReassign, resolve.AllowRecursion, resolve.LoadBindsGlobally = saved[0], saved[1], saved[2], saved[3]
+	}()
+	setLegacy := func(v int) gen.Opts {
+		resolve.AllowSet, resolve.AllowGlobalReassign, resolve.AllowRecursion, resolve.LoadBindsGlobally = v&1 != 0, v&2 != 0, v&4 != 0, v&8 != 0
+		return gen.Opts{Set: v&1 != 0, While: v&2 != 0, TopLevelControl: v&2 != 0, GlobalReassign: v&2 != 0, Recursion: v&4 != 0, LoadBindsGlob: v&8 != 0}
+	}
+	pre0, _ := host.Env(&host.Trace{}, "names")
+	for v := 0; v < 16; v++ {
+		o := setLegacy(v)
+		f, perr := syntax.Parse("prog.star", src, 0)
+		// another file is parsed under the complementary flags before the first one is resolved
+		setLegacy(15 - v)
+		syntax.Parse("decoy.star", "x = 1\n", 0)
+		var err error
+		if perr != nil {
+			err = perr
+		} else {
+			_, err = starlark.FileProgram(f, pre0.Has)
+		}
+		_, static := isStatic(err)
+		if err != nil && !static {
+			return fmt.Errorf("plant %s: unexpected error kind from the legacy API: %v", p.name, err)
+		}
+		if want := p.violates(o); want != static {
+			return fmt.Errorf("plant %s at line %d parsed under legacy flags %+v (flags changed to the complement before resolving): static rejection = %v, expected %v (err=%v)\n%s",
+				p.name, plantLine, o, static, want, err, numbered(src))
 		}
 	}
 	vk.S.Class("plant:" + p.name)
